@@ -8,6 +8,7 @@ mod lc;
 mod dp;
 mod srt;
 mod chn;
+mod lm;
 
 pub use rng::Rng;
 
@@ -24,6 +25,8 @@ fn area(name: &str) -> Box<dyn Area> {
         "dp" => Box::new(dp::Dp),
         "srt" => Box::new(srt::Srt),
         "chn" => Box::new(chn::Chn),
+        "lm" => Box::new(lm::Lm),
+        "lw" => Box::new(dp::Lw),
         _ => {
             eprintln!("unknown area {}", name);
             std::process::exit(2)
